@@ -77,6 +77,10 @@ func (e *MachineEnv) alloc(tag string, sum int) channel.Allocation {
 	}
 	bals[0] = big.NewInt(p0)
 	bals[1] = big.NewInt(rest)
+	if tag == "n" { // narrow: the last participant's column is missing (its funds are in the first one)
+		bals[0] = new(big.Int).Add(bals[0], bals[e.N-1])
+		bals = bals[:e.N-1]
+	}
 	return channel.Allocation{
 		Assets:   []channel.Asset{e.Asset},
 		Backends: []wallet.BackendID{channel.TestBackendID},
